@@ -145,4 +145,11 @@ def RFile.bindsAt (rf : RFile) (s : Slot) : Option (List (Option Extra)) := look
 /-- `Service.Reference` of service `s`. -/
 def RFile.svcRef (rf : RFile) (s : Bytes) : Option (Option Ref) := lookupB s rf.svcRefs
 
+/-- Something in the file is bound through include `k`: a type node with Reference index `k`, an
+identifier value whose Extra has Index `k`, or a service whose base service Reference has index `k`. -/
+def RefersTo (f : File) (rf : RFile) (k : Nat) : Prop :=
+  (∃ (s : Slot) (te : TypeExpr) (ns : List RNode) (j : Nat) (nd : RNode) (b : Bytes), SlotType f s te ∧ rf.nodesAt s = some ns ∧ ns[j]? = some nd ∧ nd.ref = some ⟨k, b⟩) ∨
+  (∃ s cv bs x, SlotConst f s cv ∧ rf.bindsAt s = some bs ∧ some x ∈ bs ∧ x.index = (k : Int)) ∨
+  (∃ sv b, sv ∈ f.services ∧ rf.svcRef sv.name = some (some ⟨k, b⟩))
+
 end Sem
